@@ -12,8 +12,8 @@
   found in the source) each of them is FALSE — `…_counterexample` (finding F5).  What does hold for every
   command list is proved as `…_partial` for ARBITRARY flags, so in particular for `Flags.coded` whatever the
   source does; the full statements are proved for every behaviour that has the relevant switch on
-  (`…_of_useCas`, `…_of_checkNew`, `…_of_validation`) and hence for `Flags.repaired` (the proposed fix: use
-  the CAS result, reject missing objects, validate old values under atomic).
+  (`…_of_useCas`, `…_of_checkNew`, `…_of_validation`).  §8 instantiates them at `Flags.coded`: those are the
+  headline obligations about the source, and they break when a fix is reverted.
 -/
 import DulwichModel.Lemmas.ReceivePack
 
@@ -49,7 +49,7 @@ theorem status_iff_changed_partial (fl : Flags) (env : Env) (caps : List Bytes) 
   · refine ⟨fun h => absurd h h2, fun hne ht => ?_⟩
     rw [h1] at ht
     exact absurd ht (target_ne_of_match hm hne)
-  · rcases hres with ⟨h1, h2⟩ | ⟨_, h1, h2, _⟩
+  · rcases hres with ⟨h1, h2⟩ | ⟨_, h1, h2⟩
     · refine ⟨fun h => ?_, fun hne ht => ?_⟩
       · have : m = okMsg := by
           have := h.2; rw [hl] at this; exact Option.some.inj this
@@ -65,7 +65,7 @@ theorem status_iff_changed_of_useCas (fl : Flags) (hcas : fl.useCas = true) : St
   · refine ⟨fun h => absurd h h2, fun hne hm ht => ?_⟩
     rw [h1] at ht
     exact absurd ht (target_ne_of_match hm hne)
-  · rcases hres with ⟨h1, h2⟩ | ⟨_, h1, h2, _⟩
+  · rcases hres with ⟨h1, h2⟩ | ⟨_, h1, h2⟩
     · refine ⟨fun h => ?_, fun hne hm ht => ?_⟩
       · have : m = okMsg := by
           have := h.2; rw [hl] at this; exact Option.some.inj this
@@ -174,18 +174,21 @@ theorem refs_point_into_store_partial (fl : Flags) (env : Env) (caps : List Byte
     (cmds : List Cmd) (hs : HookSane env) (hi : RefsInStore s)
     (hnew : ∀ c ∈ cmds, isZero c.new = false → storeAfterUnpack s u cmds c.new = true) :
     RefsInStore (applyPack fl env caps s u cmds).srv :=
-  applyPack_inStore_gen fl env caps s u cmds hs hi (fun c hc hz _ => hnew c hc hz)
+  applyPack_inStore_gen fl env caps s u cmds hs hi (fun c hc hz _ => hnew c hc hz) (fun c hc hz _ => hnew c hc hz)
 
-theorem refs_point_into_store_of_checkNew (fl : Flags) (hck : fl.checkNew = true) :
+theorem refs_point_into_store_of_checkNew (fl : Flags) (hck : fl.checkNew = true) (han : fl.atomicNew = true) :
     RefsPointIntoStoreStatement fl := by
   intro env caps s u cmds hs hi
   apply applyPack_inStore_gen fl env caps s u cmds hs hi
-  intro c _ _ h
-  rw [hck] at h
-  cases h
+  · intro c _ _ h
+    rw [hck] at h
+    cases h
+  · intro c _ _ h
+    rw [han] at h
+    cases h
 
 theorem refs_point_into_store_repaired : RefsPointIntoStoreStatement Flags.repaired :=
-  refs_point_into_store_of_checkNew Flags.repaired rfl
+  refs_point_into_store_of_checkNew Flags.repaired rfl rfl
 
 /-- empty server; the command creates `x = c` without sending the object (F5, second part) -/
 def srv0 : Srv := ⟨fun _ => none, fun _ => false⟩
@@ -223,7 +226,7 @@ theorem atomic_all_or_none_partial (fl : Flags) (env : Env) (caps : List Bytes) 
 /-- FULL statement for the repaired behaviour (old values and new objects validated before anything is
 applied).  The hypothesis "no I/O failure while applying" (`env.fault … = none`) is part of the statement:
 neither the code nor the proposed fix rolls back. -/
-theorem atomic_all_or_none_of_validation (fl : Flags) (ha : fl.atomicOld = true) (hn : fl.checkNew = true) :
+theorem atomic_all_or_none_of_validation (fl : Flags) (ha : fl.atomicOld = true) (hn : fl.atomicNew = true) :
     AtomicAllOrNoneStatement fl := by
   intro env caps s u cmds hat hnd hf
   exact applyPack_atomic_gen fl env caps s u cmds hat hnd hf (Or.inl ⟨ha, hn⟩)
@@ -337,18 +340,19 @@ theorem unpack_failure_reported :
 
 abbrev distinctLocal (cmds : List (Name × Id)) : Prop := (cmds.map (·.1)).Nodup
 
-/-- (iii) On the local path the recorded status is exact, for every snapshot `snap` the client read, every
-target state `t` at the time of the updates (so also when a second pusher moved refs in between), atomic or
-not: when a status list is returned, each command has one entry; success (`none`) is recorded exactly when
-the current value equals the old value the client read, and then the ref holds the requested value;
-otherwise the ref is untouched. -/
-theorem local_status_exact (snap : Refs) (t : LocalRepo) (atomic : Bool) (packIds have_ : List Id)
+/-- (iii) On the local path the recorded status is exact, for every behaviour `lf` that takes the status from
+the compare-and-swap, every snapshot `snap` the client read, every target state `t` at the time of the
+updates (so also when a second pusher moved refs in between), atomic or not: when a status list is
+returned, each command has one entry; success (`none`) is recorded only when the current value equals the
+old value the client read, and then the ref holds the requested value; otherwise the ref is untouched. -/
+theorem local_status_exact (lf : LocalFlags) (hcas : lf.usesCas = true) (snap : Refs) (t : LocalRepo)
+    (atomic : Bool) (packIds have_ : List Id)
     (cmds : List (Name × Id)) (hnd : distinctLocal cmds) (st : List (Name × Option LocalMsg))
-    (hst : (localSendPack snap t atomic packIds have_ cmds).2 = some st) :
+    (hst : (localSendPack lf snap t atomic packIds have_ cmds).2 = some st) :
     ∀ c ∈ cmds, ∃ m, st.lookup c.1 = some m ∧
         ((m = none ∧ cur t.refs c.1 = snapOld snap c.1 ∧
-            (localSendPack snap t atomic packIds have_ cmds).1.refs c.1 = localTarget c) ∨
-         (m ≠ none ∧ (localSendPack snap t atomic packIds have_ cmds).1.refs c.1 = t.refs c.1)) := by
+            (localSendPack lf snap t atomic packIds have_ cmds).1.refs c.1 = localTarget c) ∨
+         (m ≠ none ∧ (localSendPack lf snap t atomic packIds have_ cmds).1.refs c.1 = t.refs c.1)) := by
   unfold localSendPack at hst ⊢
   simp only at hst ⊢
   split at hst
@@ -362,7 +366,7 @@ theorem local_status_exact (snap : Refs) (t : LocalRepo) (atomic : Bool) (packId
       simp only [Option.some.injEq] at hst
       subst hst
       intro c hc
-      have hmem : c.1 ∈ (cmds.map (fun c => (c.1, localPrecheck snap { t with store := t.store.add packIds } c))).map (·.1) := by
+      have hmem : c.1 ∈ (cmds.map (fun c => (c.1, localPrecheck lf snap { t with store := t.store.add packIds } c))).map (·.1) := by
         simp only [List.map_map]
         exact List.mem_map_of_mem (f := fun c => c.1) hc
       obtain ⟨m, hm⟩ := lookup_map_some (fun (o : Option LocalMsg) => match o with | some m => m | none => LocalMsg.atomicFailed)
@@ -373,16 +377,17 @@ theorem local_status_exact (snap : Refs) (t : LocalRepo) (atomic : Bool) (packId
       simp only [Option.some.injEq] at hst
       subst hst
       intro c hc
-      obtain ⟨m, hm, hres⟩ := localApply_exact snap { t with store := t.store.add packIds } cmds hnd c hc
+      obtain ⟨m, hm, hres⟩ := localApply_exact lf hcas snap { t with store := t.store.add packIds } cmds hnd c hc
       refine ⟨m, hm, ?_⟩
-      rcases hres with ⟨h1, h2, h3⟩ | ⟨_, h2, h3⟩
+      rcases hres with ⟨h1, h2, h3⟩ | ⟨h2, h3⟩
       · exact Or.inl ⟨h2, h1, h3⟩
       · exact Or.inr ⟨h2, h3⟩
 
 /-- the early return (`ref_status={}`: nothing to do) leaves the target untouched -/
-theorem local_early_return_untouched (snap : Refs) (t : LocalRepo) (atomic : Bool) (packIds have_ : List Id)
-    (cmds : List (Name × Id)) (hst : (localSendPack snap t atomic packIds have_ cmds).2 = none) :
-    (localSendPack snap t atomic packIds have_ cmds).1.refs = t.refs := by
+theorem local_early_return_untouched (lf : LocalFlags) (snap : Refs) (t : LocalRepo) (atomic : Bool)
+    (packIds have_ : List Id)
+    (cmds : List (Name × Id)) (hst : (localSendPack lf snap t atomic packIds have_ cmds).2 = none) :
+    (localSendPack lf snap t atomic packIds have_ cmds).1.refs = t.refs := by
   unfold localSendPack at hst ⊢
   simp only at hst ⊢
   split at hst
@@ -390,41 +395,142 @@ theorem local_early_return_untouched (snap : Refs) (t : LocalRepo) (atomic : Boo
     rw [if_pos h1]
   · split at hst <;> cases hst
 
-/-- a stale command on the local path is rejected (complement of the above: success implies a match) -/
-theorem local_stale_rejected (snap : Refs) (t : LocalRepo) (cmds : List (Name × Id)) (hnd : distinctLocal cmds) :
+/-- a stale command on the local path is rejected and its ref untouched -/
+theorem local_stale_rejected (lf : LocalFlags) (hcas : lf.usesCas = true) (snap : Refs) (t : LocalRepo)
+    (cmds : List (Name × Id)) (hnd : distinctLocal cmds) :
     ∀ c ∈ cmds, cur t.refs c.1 ≠ snapOld snap c.1 →
-      ∃ m, (localApply snap t cmds).2.lookup c.1 = some (some m) ∧ (localApply snap t cmds).1.refs c.1 = t.refs c.1 := by
-  intro c hc hst
-  obtain ⟨m, hm, hres⟩ := localApply_exact snap t cmds hnd c hc
-  rcases hres with ⟨h1, _, _⟩ | ⟨_, h2, h3⟩
-  · exact absurd h1 hst
-  · cases m with
-    | none => exact absurd rfl h2
-    | some m => exact ⟨m, hm, h3⟩
+      ∃ m, (localApply lf snap t cmds).2.lookup c.1 = some (some m) ∧
+        (localApply lf snap t cmds).1.refs c.1 = t.refs c.1 :=
+  localApply_stale lf hcas snap t cmds hnd
+
+/-- FULL, local path, for every behaviour that tests the object store in the apply loop: the target never ends
+up with a ref naming an object it does not have — whatever `generate_pack_data` supplied, racing or not. -/
+theorem local_refs_point_into_store_of_checksNew (lf : LocalFlags) (hcas : lf.usesCas = true)
+    (hk : lf.checksNew = true) (snap : Refs) (t : LocalRepo) (atomic : Bool) (packIds have_ : List Id)
+    (cmds : List (Name × Id)) (hi : LocalInStore t) :
+    LocalInStore (localSendPack lf snap t atomic packIds have_ cmds).1 := by
+  have hi1 : LocalInStore { t with store := t.store.add packIds } := by
+    intro n v hv
+    have := hi n v hv
+    simp [Store.add, this]
+  unfold localSendPack
+  simp only
+  split
+  · exact hi
+  · split
+    · exact hi1
+    · exact localApply_inStore lf hcas hk snap _ cmds hi1
+
+/-- FULL, local path, sequential reading of "atomic": when the pre-check reads the value the compare-and-swap
+will see and tests the object store, `atomic=True` is all-or-nothing for every snapshot and every target
+state at the time of the call (in particular when a second pusher moved refs after the client read them).
+NOT covered — and not true of the code: a writer acting between the pre-check and the last update (no lock is
+held across the batch). -/
+theorem local_atomic_all_or_none_of_precheck (lf : LocalFlags) (hcas : lf.usesCas = true)
+    (hp : lf.precheckPeeled = false) (hn : lf.precheckNew = true)
+    (snap : Refs) (t : LocalRepo) (packIds have_ : List Id) (cmds : List (Name × Id)) (hnd : distinctLocal cmds) :
+    (localSendPack lf snap t true packIds have_ cmds).1.refs = t.refs ∨
+      ∀ c ∈ cmds, (localSendPack lf snap t true packIds have_ cmds).1.refs c.1 = localTarget c := by
+  unfold localSendPack
+  simp only
+  split
+  · exact Or.inl rfl
+  · split
+    · exact Or.inl rfl
+    · rename_i hpre
+      right
+      apply localApply_all lf hcas snap _ cmds hnd
+      intro c hc
+      apply localPrecheck_pass lf hp hn snap _ c
+      -- no entry of the pre-check list is a failure
+      simp only [Bool.true_and, List.any_map, List.any_eq_true, Function.comp, not_exists, not_and] at hpre
+      have := hpre c hc
+      cases h : localPrecheck lf snap { t with store := t.store.add packIds } c with
+      | none => rfl
+      | some m => simp [h] at this
 
 /-- witnesses for the local path: the client read `m = b`; meanwhile a second pusher set `m = a` (loose ref) -/
 def snapB : Refs := fun n => if n = nM then some idB else none
 def racedRepo : LocalRepo := ⟨fun n => if n = nM then some idA else none, fun i => i = idA || i = idB || i = idC, fun _ => false⟩
 
-/-- `atomic=True` on the local path is not all-or-nothing when a second pusher moved a LOOSE ref between the
-client's read and its update: the pre-check asks `get_peeled`, which knows nothing about loose refs; `x` is
-created, `m` is rejected. -/
+/-- Before the fix, `atomic=True` on the local path is not all-or-nothing when a second pusher moved a LOOSE
+ref between the client's read and its update: the pre-check asks `get_peeled`, which knows nothing about
+loose refs; `x` is created, `m` is rejected. -/
 theorem local_atomic_counterexample :
-    let r := localSendPack snapB racedRepo true [] [idB] [(nX, idC), (nM, idC)]
+    let r := localSendPack LocalFlags.unrepaired snapB racedRepo true [] [idB] [(nX, idC), (nM, idC)]
     r.1.refs nX = some idC ∧ r.1.refs nM = some idA ∧
     r.2 = some [(nX, none), (nM, some .unableToSet)] := by decide
 
-/-- the same race on a PACKED ref is caught by the pre-check: everything is rejected, nothing changes -/
+/-- the same race with the repaired pre-check: everything is rejected, nothing changes -/
 example :
-    let r := localSendPack snapB { racedRepo with packed := fun n => n = nM } true [] [idB] [(nX, idC), (nM, idC)]
+    let r := localSendPack LocalFlags.repaired snapB racedRepo true [] [idB] [(nX, idC), (nM, idC)]
     r.1.refs nX = none ∧ r.1.refs nM = some idA ∧
     r.2 = some [(nX, some .atomicFailed), (nM, some .unableToSet)] := by decide
 
-/-- the local path sets a ref to an object the target does not have when the caller's pack lacks it -/
+/-- Before the fix, the local path sets a ref to an object the target does not have when the caller's pack
+lacks it. -/
 theorem local_refs_point_into_store_counterexample :
     let t : LocalRepo := ⟨fun _ => none, fun _ => false, fun _ => false⟩
-    let r := localSendPack (fun _ => none) t false [] [] [(nX, idC)]
+    let r := localSendPack LocalFlags.unrepaired (fun _ => none) t false [] [] [(nX, idC)]
     r.1.refs nX = some idC ∧ r.1.store idC = false := by decide
 
+/-! ## 8. HEADLINE: the source as it is (`Flags.coded`, `LocalFlags.coded` — switches read from /repo)
+
+These are the obligations about the code itself.  Each one is the full statement instantiated at the
+switches the translator found, and each needs a particular switch to be ON (`rfl` on the generated
+constant): reverting the corresponding fix in /repo flips the switch and BREAKS the proof — the intended
+regression signal.  The `…_counterexample` theorems above show what then goes wrong. -/
+
+/-- a push reports `ok` for a ref exactly when the ref now holds the requested value (needs: the status comes
+from the compare-and-swap) -/
+theorem status_iff_changed : StatusIffChangedStatement Flags.coded :=
+  status_iff_changed_of_useCas Flags.coded rfl
+
+/-- a stale old value is reported as rejected and the ref is untouched (needs the same switch) -/
+theorem stale_old_rejected : StaleOldRejectedStatement Flags.coded :=
+  stale_old_rejected_of_useCas Flags.coded rfl
+
+/-- no ref ever names an object the server does not have (needs: the new object is tested in the non-atomic
+loop and in the atomic validation loop) -/
+theorem refs_point_into_store : RefsPointIntoStoreStatement Flags.coded :=
+  refs_point_into_store_of_checkNew Flags.coded rfl rfl
+
+/-- atomic is all-or-nothing (needs: old values and new objects validated before anything is applied).
+Honest hypothesis inside the statement: the ref container raises for none of the commanded names while
+applying — neither an I/O failure (directory/file conflict: there is no rollback, known finding) nor an
+invalid name (`bad ref` is only discovered in the apply loop, known finding). -/
+theorem atomic_all_or_none : AtomicAllOrNoneStatement Flags.coded :=
+  atomic_all_or_none_of_validation Flags.coded rfl rfl
+
+/-- an invalid ref name no longer kills the handler: `RefFormatError` is among the classes the outer handler
+catches, so the condition `NoEscape` holds for a container that raises it (needs: the `except` clause names
+RefFormatError) -/
+theorem bad_refname_is_caught :
+    catches Gen.ReceivePack.badRefCatches [[82, 101, 102, 70, 111, 114, 109, 97, 116, 69, 114, 114, 111, 114]] = true := by
+  decide
+
+/-- local path: the recorded status is exact -/
+theorem local_status_exact_coded (snap : Refs) (t : LocalRepo) (atomic : Bool) (packIds have_ : List Id)
+    (cmds : List (Name × Id)) (hnd : distinctLocal cmds) (st : List (Name × Option LocalMsg))
+    (hst : (localSendPack LocalFlags.coded snap t atomic packIds have_ cmds).2 = some st) :
+    ∀ c ∈ cmds, ∃ m, st.lookup c.1 = some m ∧
+        ((m = none ∧ cur t.refs c.1 = snapOld snap c.1 ∧
+            (localSendPack LocalFlags.coded snap t atomic packIds have_ cmds).1.refs c.1 = localTarget c) ∨
+         (m ≠ none ∧ (localSendPack LocalFlags.coded snap t atomic packIds have_ cmds).1.refs c.1 = t.refs c.1)) :=
+  local_status_exact LocalFlags.coded rfl snap t atomic packIds have_ cmds hnd st hst
+
+/-- local path: no ref names an object the target lacks -/
+theorem local_refs_point_into_store (snap : Refs) (t : LocalRepo) (atomic : Bool) (packIds have_ : List Id)
+    (cmds : List (Name × Id)) (hi : LocalInStore t) :
+    LocalInStore (localSendPack LocalFlags.coded snap t atomic packIds have_ cmds).1 :=
+  local_refs_point_into_store_of_checksNew LocalFlags.coded rfl rfl snap t atomic packIds have_ cmds hi
+
+/-- local path: `atomic=True` is all-or-nothing for any state at the time of the call (see the limits in
+`local_atomic_all_or_none_of_precheck`) -/
+theorem local_atomic_all_or_none (snap : Refs) (t : LocalRepo) (packIds have_ : List Id)
+    (cmds : List (Name × Id)) (hnd : distinctLocal cmds) :
+    (localSendPack LocalFlags.coded snap t true packIds have_ cmds).1.refs = t.refs ∨
+      ∀ c ∈ cmds, (localSendPack LocalFlags.coded snap t true packIds have_ cmds).1.refs c.1 = localTarget c :=
+  local_atomic_all_or_none_of_precheck LocalFlags.coded rfl rfl rfl snap t packIds have_ cmds hnd
 
 end Dulwich.Props.C06
